@@ -1,8 +1,11 @@
 import ScriggoV.Lemmas.FramesRefine
+import ScriggoV.Lemmas.NativeDispatch
 /-! C12 — Run reports Stop, Fatal and unrecovered panics exactly as documented; and the
 refinement of Scriggo's call-frame machine to the abstract Go defer/panic/recover machine that
-C01 (stage two) uses. Models: `Model/Frames.lean` (hand-written from internal/runtime, tied by
-go/props/c12), `Spec/GoDefer.lean` (validated against real gc on every check). -/
+C01 (stage two) uses; and the state in which native code is called, as the panic classifier
+sees it. Models: `Model/Frames.lean` (hand-written from internal/runtime, tied by
+go/props/c12), `Spec/GoDefer.lean` (validated against real gc on every check), `Model/NativeDispatch.lean` over the regenerated
+`Gen/NativeCalls.lean` (run.go, vm.go) and `Gen/ConvertPanic.lean` (errors.go). -/
 namespace ScriggoV.Props.C12
 open ScriggoV.DeferLang ScriggoV.Frames ScriggoV.FramesRefine
 
@@ -86,6 +89,75 @@ example : Frames.run [[.defer 1, .defer 1, .panic 7], [.print 1, .stop 2]] 50 = 
   decide +kernel
 example : Frames.run [[.defer 1, .call 2], [.print 1], [.defer 1, .fatal 9]] 50 = ⟨[], .fatal 9⟩ := by
   decide +kernel
+
+/-! ### native code is called in a state the panic classifier recognises
+
+`convertPanic` decides what a Go panic recovered by the VM means by looking at
+`vm.fn.Body[vm.pc-1].Op`. For a panic that comes out of native code to be reported as documented
+(`panic(v)` → a panic of the program: deferred calls run, `recover()` sees `v`, `Run` returns
+`*PanicError`; `env.Fatal(v)` → `Run` panics; `env.Stop(err)` → `Run` returns `err`) the VM must
+call native code only while that word is the call instruction itself. The sites are regenerated
+from run.go / vm.go on every check (`Gen/NativeCalls.lean`), the classification from errors.go
+(`Gen/ConvertPanic.lean`). -/
+section NativeDispatch
+open ScriggoV.NativeDispatch ScriggoV.Gen.ConvertPanic ScriggoV.Gen.NativeCalls
+
+/-- Every place of the instruction loop that calls `vm.callNative` — whatever the way the native
+function is reached: `OpCallNative` (a direct call) or `OpCallIndirect` (a function value, a
+method value, a method called through an interface) — does so with `vm.pc` exactly one past the
+call instruction, under a case label that `convertPanic` treats as "native code was running": for
+every function body, every address holding that call instruction, whatever the operand word
+after it holds, and every documented payload, the classification is the documented one. -/
+theorem native_call_panic_classified (s : Site) (hs : s ∈ runSites) (ht : s.target = "callNative")
+    (op : Op) (neg : Bool) (ho : (op, neg) ∈ s.ops) (body : List Word) (addr : Nat)
+    (hb : body[addr]? = some (encode op neg)) (p : Payload) (o : Gen.ConvertPanic.Outcome)
+    (hd : documented p = some o) :
+    classifyAt body (addr + s.pcAtCall) s.nativeCallee p = o := by
+  have hall : (runSites.filter (·.target == "callNative")).all siteOk = true := by decide
+  have hmem : s ∈ runSites.filter (·.target == "callNative") := by
+    simp [List.mem_filter, hs, ht]
+  exact classifyAt_site s (List.all_eq_true.mp hall s hmem) op neg ho body addr hb p o hd
+
+/-- … and on the way out the operand word (the stack shift) after the call instruction is
+skipped: it is never fetched as an instruction. -/
+theorem native_call_skips_operand (s : Site) (hs : s ∈ runSites) (ht : s.target = "callNative") :
+    s.pcAtEnd = some 2 := by
+  have hall : (runSites.filter (·.target == "callNative")).all skipsOperand = true := by decide
+  have hmem : s ∈ runSites.filter (·.target == "callNative") := by
+    simp [List.mem_filter, hs, ht]
+  simpa [skipsOperand] using List.all_eq_true.mp hall s hmem
+
+/-- Deferred native functions are called in place by `nextCall`. `nextCall` leaves `vm.fn` and
+`vm.pc` alone on the way to that call, and it runs either with no function (`vm.fn == nil`,
+from `runRecoverable` while the program unwinds) or from a site of the instruction loop that is
+sound in the sense above (`OpReturn`): in both states every documented payload gets its
+documented outcome. -/
+theorem deferred_native_panic_classified :
+    nextCallKeepsFnPc = true ∧ recoverableNextCallOnlyWithoutFn = true ∧
+    (∀ op neg nc p o, documented p = some o → classify false op neg nc p = o) ∧
+    (∀ s ∈ runSites, s.target = "nextCall" → ∀ op neg, (op, neg) ∈ s.ops →
+      ∀ (body : List Word) (addr : Nat), body[addr]? = some (encode op neg) →
+      ∀ p o, documented p = some o → classifyAt body (addr + s.pcAtCall) s.nativeCallee p = o) := by
+  refine ⟨by decide, by decide, fun op neg nc p o hd => noFn_sound op neg nc p o hd, ?_⟩
+  intro s hs ht op neg ho body addr hb p o hd
+  have hall : (runSites.filter (·.target == "nextCall")).all siteOk = true := by decide
+  have hmem : s ∈ runSites.filter (·.target == "nextCall") := by
+    simp [List.mem_filter, hs, ht]
+  exact classifyAt_site s (List.all_eq_true.mp hall s hmem) op neg ho body addr hb p o hd
+
+/-- the statements are about something: there is a direct and an indirect native call site -/
+example : (runSites.filter (·.target == "callNative")).map (·.ops) =
+    [[(.OpCallIndirect, false)], [(.OpCallNative, false)]] := by decide
+
+/-- The obligation has teeth: were the native function called one word later (after the
+`vm.pc++` that skips the operand), a `panic(v)` inside it would be classified by the operand
+word — a stack shift, here 0 — and leave `Run` as a host panic instead of a `*PanicError`. -/
+example : classifyAt [encode .OpCallIndirect false, 0] (0 + 2) true .other = .fatal := by decide
+example : classifyAt [encode .OpCallIndirect false, 0] (0 + 1) true .other = .panicError := by decide
+/-- the same for a callee that is not known to be native (the `f.fn == nil` test missing) -/
+example : classifyAt [encode .OpCallIndirect false, 0] (0 + 1) false .other = .fatal := by decide
+
+end NativeDispatch
 
 /-! ### the public accessor layer -/
 
